@@ -191,8 +191,39 @@ def reference(V, F, sr, rec, nbatch, k_filter, wrot, labels, nc_out, ns2add, h, 
             res_[sel] = dat[sel] - agg(dat[sel], axis=0)
         return res_
 
+    def kfilt_ref(dat, ntr_pad=0, ntr_tap=None, lagc=300, butter_kwargs=None, collection=None, **_):
+        # the spatial high-pass written out from its documentation: gain control, ntr_pad mirrored traces on either side, a cosine apodisation over
+        # ntr_tap traces at either end of the PADDED array, zero-phase Butterworth along the channels, crop, gain restored
+        if collection is not None:
+            res_ = np.zeros_like(dat)
+            for v in np.unique(collection):
+                sel = np.asarray(collection) == v
+                res_[sel] = kfilt_ref(dat[sel], ntr_pad=0, ntr_tap=None, lagc=lagc, butter_kwargs=butter_kwargs)
+            return res_
+        nx = dat.shape[0]
+        pad = min(int(ntr_pad), nx)
+        tap = pad if ntr_tap is None else int(ntr_tap)
+        nxp = nx + 2 * pad
+        if not lagc:
+            xf, gain = dat.copy(), 1
+        else:
+            xf, gain = V.agc(dat, wl=lagc, si=1.0)
+        if pad > 0:
+            xf = np.r_[np.flipud(xf[:pad]), xf, np.flipud(xf[-pad:])]
+        if tap > 0:
+            t_ = np.arange(nxp, dtype=np.float64)
+
+            def ramp(a_, b_):
+                return np.where(t_ <= a_, 0.0, np.where(t_ >= b_, 1.0, (1 - np.cos((t_ - a_) / (b_ - a_) * np.pi)) / 2))
+            xf = xf * (ramp(0, tap) * (1 - ramp(nxp - tap, nxp)))[:, None]
+        sosk = scipy.signal.butter(**(butter_kwargs or {"N": 3, "Wn": 0.1, "btype": "highpass"}), output="sos")
+        xf = scipy.signal.sosfiltfilt(sosk, xf, axis=0)
+        if pad > 0:
+            xf = xf[pad:-pad]
+        return xf * gain
+
     def spatial(dat):
-        return V.kfilt(dat, **kk) if k_filter else car_ref(dat, **kk)
+        return kfilt_ref(dat, **kk) if k_filter else car_ref(dat, **kk)
     out = np.zeros((ns + ns2add, nc_out), np.float64)
     rows = []
     for first, last in canonical_batches(ns, nbatch):
@@ -254,7 +285,8 @@ def options(rng, opt, n, pad1=False, variant=None):
         # filter settings chosen by the caller: temporal high-pass and spatial filter / referencing parameters
         o["butter_kwargs"] = {"N": int(rng.integers(2, 5)), "Wn": float(rng.uniform(150, 600)) / 30000 * 2, "btype": "highpass"}
         if (rng.random() < 0.5) if variant is None else (variant == 0):
-            o["k_kwargs"] = {"ntr_pad": int(rng.choice([0, 20, 60])), "ntr_tap": 0, "lagc": [None, int(rng.integers(300, 6000))][int(rng.integers(0, 2))],
+            # (lateral padding AND apodisation chosen by the caller; the default settings - padding 60, no apodisation - are what every other option runs with)
+            o["k_kwargs"] = {"ntr_pad": int(rng.choice([20, 60])), "ntr_tap": [10, 30, None][int(rng.integers(0, 3))], "lagc": [None, int(rng.integers(300, 6000))][int(rng.integers(0, 2))],
                              "butter_kwargs": {"N": int(rng.integers(2, 4)), "Wn": float(rng.uniform(0.01, 0.1)), "btype": "highpass"}}
         else:
             o["k_filter"] = False
